@@ -89,7 +89,7 @@ class ContentHeader:
 
     def marshal(self) -> bytes:
         """Return the AMQP binary encoded value of the frame"""
-        return struct.pack('>HxxQ', commands.Basic.frame_id,
+        return struct.pack('>HHQ', commands.Basic.frame_id, self.weight,
                            self.body_size) + self.properties.marshal()
 
     def unmarshal(self, data: bytes) -> None:
